@@ -94,8 +94,12 @@ func (e *EventStreaming) CreateEventStream(name string, count uint64) *EventStre
 	}
 	local := make(chan *si.EventRecord, defaultChannelBufSize)
 	stop := make(chan struct{})
+	// register the stream and collect the history in one step: an event published in between the two is older than
+	// the end of the history and would be delivered after it, out of order, followed by duplicates
+	e.Lock()
 	e.createEventStreamInternal(stream, local, consumer, stop, name)
 	history := e.buffer.GetRecentEvents(count)
+	e.Unlock()
 
 	go func(consumer chan<- *si.EventRecord, local <-chan *si.EventRecord, stop <-chan struct{}) {
 		// Store the refs of historical events; it's possible that some events are added to the
@@ -138,10 +142,7 @@ func (e *EventStreaming) createEventStreamInternal(stream *EventStream,
 	consumer chan *si.EventRecord,
 	stop chan struct{},
 	name string) {
-	// stuff that needs locking
-	e.Lock()
-	defer e.Unlock()
-
+	// must be called holding the lock
 	e.eventStreams[stream] = eventConsumerDetails{
 		local:     local,
 		consumer:  consumer,
